@@ -74,7 +74,7 @@ func (e *Explorer) Explore() {
 
 func (e *Explorer) account(res vs.Result, plen int) {
 	e.Stats.Executions++
-	e.Stats.Transitions += int64(res.Steps)
+	e.Stats.Transitions += int64(res.Steps) + int64(len(res.Trace))
 	n := len(res.Trace) - plen
 	if n < 0 {
 		n = 0
